@@ -152,6 +152,41 @@ func c16ElGamal[E algebra.PrimeGroupElement[E, S], S algebra.PrimeFieldElement[S
 	}
 }
 
+// c16CustomGenerator: NewSecretKey takes the generator as an argument; a key built over a
+// caller-chosen generator g must behave like any other key.
+func c16CustomGenerator[E algebra.PrimeGroupElement[E, S], S algebra.PrimeFieldElement[S]](env Env[E, S]) {
+	group := env.Group()
+	f := env.Field()
+	g := env.Point("g")
+	a := env.Scalar("sk")
+	env.Assume(symalg.Not(env.EqG(g, group.OpIdentity())))
+	env.Assume(symalg.Not(env.EqF(a, f.Zero())))
+	env.Assume(symalg.Not(env.EqF(a, f.One())))
+	sk, err := elgamal.NewSecretKey[E, S](g, a)
+	if err != nil {
+		env.Reach("C16.g/custom generator refused by the constructor")
+		return
+	}
+	env.Reach("C16.g/custom generator accepted by the constructor")
+	pk := sk.Public()
+	env.Valid("C16.g/pk=g^sk", env.EqG(pk.Value(), g.ScalarOp(a)))
+	mv, rv := env.Point("m"), env.Scalar("r")
+	env.Assume(symalg.Not(env.EqF(rv, f.Zero())))
+	m, e1 := elgamal.NewPlaintext[E, S](mv)
+	r, e2 := elgamal.NewNonce(rv)
+	if !env.Check("C16.g/inputs-ok", e1 == nil && e2 == nil, fmt.Sprint(e1, e2)) {
+		return
+	}
+	c, err := pk.EncryptWithNonce(m, r)
+	if !env.Check("C16.g/encrypt-ok", err == nil, fmt.Sprint(err)) {
+		return
+	}
+	p, err := sk.Decrypt(c)
+	if env.Check("C16.g/decrypt-ok", err == nil, fmt.Sprint(err)) {
+		env.Valid("C16.g/decrypt(encrypt(m))=m for a key over a caller-chosen generator", env.EqG(p.Value(), mv))
+	}
+}
+
 func opSequences(tier string) [][]string {
 	ops := []string{"op", "inv", "scalar", "shift", "rerand"}
 	var out [][]string
@@ -185,5 +220,8 @@ func C16Cases(tier string, seed int64) []Case {
 			func(e Env[*symalg.G, *symalg.F]) { c16ElGamal(e, s) },
 			func(e Env[*k256.Point, *k256.Scalar]) { c16ElGamal(e, s) }))
 	}
+	cases = append(cases, both("C16/elgamal/custom-generator", map[string]any{"scheme": "elgamal", "generator": "arbitrary symbolic point handed to NewSecretKey"},
+		func(e Env[*symalg.G, *symalg.F]) { c16CustomGenerator(e) },
+		func(e Env[*k256.Point, *k256.Scalar]) { c16CustomGenerator(e) }))
 	return cases
 }
